@@ -362,6 +362,7 @@ package rapid
 
 //@ func handleInvokeError
 //@   requires execCtx != nil && invokeRequest != nil
+//@   ensures [an-init-fault-yields-the-status-only] !execCtx.initDone ==> r0.DefaultErrorResponse != nil && len(r0.DefaultErrorResponse.Payload) == 0
 //@   ensures [default-body-names-the-first-fault] r0 != nil && delta(DefaultErrorBuiltFrom) == 1 && lastarg(DefaultErrorBuiltFrom, 0) == r0.ErrorType && lastarg(DefaultErrorBuiltFrom, 1) == err && lastarg(DefaultErrorBuiltFrom, 2) == invokeRequest.ID && r0.DefaultErrorResponse == lastret(DefaultErrorBuilt) && r0.DefaultErrorResponse != nil
 //@   ensures [first-fault] (has(ctxOf(execCtx.appCtx).m, appctx.AppCtxFirstFatalErrorKey) ==> iface(r0.ErrorType) == ctxOf(execCtx.appCtx).m[appctx.AppCtxFirstFatalErrorKey]) && (!has(ctxOf(execCtx.appCtx).m, appctx.AppCtxFirstFatalErrorKey) ==> r0.ErrorType == fatalerror.SandboxFailure)
 //@   ensures [reset-handling] (r0.ResetReceived <==> extEnabled() && err == errResetReceived) && (r0.RequestReset <==> extEnabled())
